@@ -161,6 +161,13 @@ def classify(mod, rec):
 
 # ---------------------------------------------------------------- shrinking
 
+def why_class(why):
+    """the kind of failure, without the names and numbers of the instance: a shrunk case has to fail the same way"""
+    import re
+    head = (why or "").split(":")[0]
+    return re.sub(r"'[^']*'|\"[^\"]*\"|[0-9]+", "", head)[:80]
+
+
 def shrink_candidates(v):
     """Yield smaller variants of a JSON value (structure-preserving where possible)."""
     if isinstance(v, list):
@@ -185,6 +192,7 @@ def shrink_candidates(v):
 
 def shrink(mod, rec, std, status, budget=150):
     best = rec
+    want_class = why_class(classify(mod, rec)[1])
     tried = 0
     improved = True
     while improved and tried < budget:
@@ -206,8 +214,8 @@ def shrink(mod, rec, std, status, budget=150):
                 r = evaluate(mod, [copy.deepcopy(cand)], std)[0]
             except Exception:
                 continue
-            st, _ = classify(mod, r)
-            if st == status and len(json.dumps(cand)) < len(json.dumps(base)):
+            st, why = classify(mod, r)
+            if st == status and why_class(why) == want_class and len(json.dumps(cand)) < len(json.dumps(base)):
                 r["case"]["_shrunk_from"] = best["case"].get("_shrunk_from") or json.dumps(base)
                 best = r
                 improved = True
